@@ -25,7 +25,7 @@ use nitrogql_semantics::{
 };
 use sourcemap_writer::{JsStringWriter, SourceWriter, SourceWriterBuffers};
 
-#[path = "/repo/crates/cli/src/builtins.rs"]
+#[path = "../../.build/repo/crates/cli/src/builtins.rs"]
 pub mod cli_builtins;
 
 #[derive(Clone, Debug)]
